@@ -497,6 +497,101 @@ def facade_case(ctx: Ctx, real: Real, rng):
     ctx.sample({"suite": "facade", "mode": mode, "entries": entries, "real": results}, every=211)
 
 
+@dataclass
+class RTree:
+    value: int
+    children: "list[RTree]"
+
+
+@dataclass
+class RNode:
+    value: int
+    next: "Optional[RNode]" = None
+
+
+from typing import List, Optional  # noqa: E402  (names used by the forward references above)
+
+
+def recursive_chain_case(ctx: Ctx, real: Real, rng, entries=None, direction=None):
+    """Chaining providers on locations INSIDE self-referential models (the recursion goes through the retort's recursion
+    stubs). Every entry is a chained (FIRST / LAST) identity function that logs its call; whatever the arrangement, a chained
+    provider matching a location must be composed into the served loader/dumper exactly once at EVERY occurrence of the
+    location, at every nesting depth: its function runs exactly (number of occurrences in the datum) times."""
+    from adaptix import P, Retort, dumper, loader
+    preds = {
+        "Tree.children": (P[RTree].children, "tree", lambda n, ln: n), "list[Tree]": (List[RTree], "tree", lambda n, ln: n),
+        "Tree": (RTree, "tree", lambda n, ln: n), "Tree.value": (P[RTree].value, "tree", lambda n, ln: n),
+        "Node.next": (P[RNode].next, "node", lambda n, ln: ln), "Optional[Node]": (Optional[RNode], "node", lambda n, ln: ln),
+        "Node": (RNode, "node", lambda n, ln: ln), "name:next": ("next", "node", lambda n, ln: ln),
+        "name:children": ("children", "tree", lambda n, ln: n),
+    }
+    if entries is None:
+        entries = [(rng.choice(list(preds)), rng.choice(["first", "last"]), i) for i in range(rng.randint(1, 4))]
+        direction = rng.choice(["load", "dump"])
+    log = []
+
+    def mk(i):
+        def f(data):
+            log.append(i)
+            return data
+        return f
+    make = loader if direction == "load" else dumper
+    recipe = [make(preds[p][0], mk(i), {"first": real.Chain.FIRST, "last": real.Chain.LAST}[ch]) for p, ch, i in entries]
+
+    def tree(depth, budget):
+        kids = [] if depth == 0 else [tree(depth - 1, budget) for _ in range(rng.choice([0, 1, 2]))]
+        return RTree(value=depth, children=kids)
+
+    def count(t):
+        return 1 + sum(count(c) for c in t.children)
+    t = tree(rng.choice([1, 2, 3]), None)
+    ln = rng.randint(1, 4)
+    node = None
+    for k in range(ln):
+        node = RNode(value=k, next=node)
+    n_tree = count(t)
+    plain = Retort()
+    retort = Retort(recipe=recipe)
+    case = {"suite": "recursive-chain", "entries": [list(e) for e in entries], "direction": direction, "tree_nodes": n_tree,
+            "chain_len": ln}
+    ctx.note_case(case, nontrivial=n_tree > 1 or ln > 1, kind=f"recursive-chain:{direction}:{min(len(entries), 3)}-entries")
+    for family, value, hint in (("tree", t, RTree), ("node", node, RNode)):
+        log.clear()
+        try:
+            if direction == "load":
+                datum = plain.dump(value, hint)
+                if family == "node":
+                    datum = _explicit_next(datum)
+                out = retort.load(datum, hint)
+                ok = out == value
+            else:
+                out = retort.dump(value, hint)
+                ok = out == plain.dump(value, hint)
+        except Exception as e:  # noqa: BLE001
+            ctx.fail("recursive-chain:raises", f"{direction} of a recursive model with chained identity providers {entries} raises "
+                     f"{type(e).__name__}: {e}", dict(case, family=family))
+            continue
+        if not ok:
+            ctx.fail("recursive-chain:result", f"{direction} with chained identity providers {entries} changes the result", dict(case, family=family))
+        for p, ch, i in entries:
+            _, fam, occ = preds[p]
+            want = occ(n_tree, ln) if fam == family else 0
+            got = log.count(i)
+            if got != want:
+                ctx.fail(f"recursive-chain:composed-{'less' if got < want else 'more'}-than-once",
+                         f"{direction} {hint.__name__} ({n_tree if family == 'tree' else ln} occurrences of every location): the "
+                         f"chained provider #{i} on {p} ({ch}) ran {got} times, exactly {want} expected; recipe {entries}",
+                         dict(case, family=family))
+                break
+
+
+def _explicit_next(d):
+    """the dumped chain with the final `next: None` spelled out, so the field loader runs at every node"""
+    if d is None:
+        return None
+    return {"value": d["value"], "next": _explicit_next(d.get("next"))}
+
+
 def facade_options(ctx: Ctx, real: Real):
     """replace() changes only scalar options; a nested retort keeps its own options."""
     from adaptix import Retort
@@ -534,6 +629,8 @@ def run(ctx: Ctx):
     for _ in range(ctx.budget(400, 6000)):
         facade_case(ctx, real, ctx.rng)
     facade_options(ctx, real)
+    for _ in range(ctx.budget(150, 3000)):
+        recursive_chain_case(ctx, real, ctx.rng)
     ctx.extra["exhaustive"] = False
     ctx.extra["exhaustive_part"] = f"router items/walk: all checker lists of length <= {5 if thorough else 4} over 5 checkers x 12 requests"
 
@@ -548,6 +645,9 @@ def search(ctx: Ctx):
     if not ctx.failures:
         suite_send(ctx, real, None, n_random=20000, exhaustive_len=3)
         suite_items_and_walk(ctx, real, None, max_len=4, extra_random=5000)
+    if not ctx.failures:
+        for _ in range(1500):
+            recursive_chain_case(ctx, real, ctx.rng)
 
 
 def replay(ctx: Ctx, case) -> bool:
@@ -561,6 +661,10 @@ def replay(ctx: Ctx, case) -> bool:
         expect = [i for i, c in enumerate(case["checkers"]) if py_check(c, case["req"])]
         if seen != expect:
             ctx.fail("walk", f"consulted {seen}, first-match order {expect}", case)
+    elif case.get("suite") == "recursive-chain":
+        import random
+        for k in range(40):
+            recursive_chain_case(ctx, real, random.Random(k), entries=[tuple(e) for e in case["entries"]], direction=case["direction"])
     else:
         return False
     return len(ctx.failures) > before
